@@ -786,7 +786,23 @@ func c14midExchange(c *Ctx, p *c14pair, fromB bool) {
 			return
 		}
 	}
-	p.waitNoConn(6 * time.Second)
+	// a request issued after the cut re-dials: the pair may be connected again (over a new connection, which nobody has
+	// cut). The oracle below speaks about relations WITHOUT a connection: cut until the pair stays apart.
+	apart := p.waitNoConn(3 * time.Second)
+	for i := 0; i < 5 && !apart; i++ {
+		if rn, err := p.a.Network().Node(p.nameB); err == nil {
+			rn.Disconnect()
+		}
+		apart = p.waitNoConn(3 * time.Second)
+	}
+	if !apart {
+		r.Count("inconclusive.mid-exchange-still-connected")
+		for _, o := range ones {
+			p.a.Kill(o.h)
+		}
+		p.a.Kill(warm)
+		return
+	}
 	time.Sleep(30 * time.Millisecond)
 	for _, o := range ones {
 		notified := func() int {
